@@ -910,9 +910,14 @@ class TaskDispatcher(object):
                         callback,
                         branch_id,      # ignored
                         sched_time,     # ignored
-                        timeout_id,     # ignored
+                        timeout_id,
                         task_span
                     ) = request
+
+                    # Cancel the timeout previously set for this request, it
+                    # would otherwise stay armed (doing nothing when it finally
+                    # fires) for the whole Task/Execution timeout period.
+                    self.state_engine.event_dispatcher.clear_timeout(timeout_id)
 
                     with opentracing.tracer.scope_manager.activate(
                         span=task_span,
